@@ -1,11 +1,15 @@
 #!/bin/sh
-# run every check of a tier; print one line per check
+# run every check of a tier; print one line per check (logs in /var/tmp/runall.<pid>/)
 TIER=${1:-quick}
 cd "$(dirname "$0")/.."
+LOGS=/var/tmp/runall.$$
+mkdir -p $LOGS
+echo "logs in $LOGS seed=${VERIF_SEED:-1} tier=$TIER"
 for i in 01 02 03 04 05 06 07 08 09 10 11 12 13 14 15 16 17 18 19 20; do
   s=$(date +%s)
-  ./check C$i --tier $TIER > /tmp/runall_C$i.log 2>&1
+  ./check C$i --tier $TIER > $LOGS/C$i.log 2>&1
   rc=$?
   e=$(date +%s)
-  echo "C$i rc=$rc $((e-s))s $(grep -c '^VIOLATION' /tmp/runall_C$i.log) violations $(grep -c '^KNOWN-FINDING' /tmp/runall_C$i.log) known"
+  echo "C$i rc=$rc $((e-s))s $(grep -c '^VIOLATION' $LOGS/C$i.log) violations $(grep -c '^KNOWN-FINDING' $LOGS/C$i.log) known"
+  [ $rc -ne 0 ] && grep -A3 -E '^VIOLATION|^INCONCLUSIVE' $LOGS/C$i.log | head -12 | cut -c1-300
 done
